@@ -508,6 +508,21 @@ def run(shard, rec, rng):
             ad = m.bind("h.com", script, subdomain=rng.choice([None, "", "www", "api"]))
         else:
             ad = m.bind("h.com", script)
+        if rng.random() < 0.35:
+            # the adapter a WSGI application really works with is made from the request environ: it must be the same
+            # adapter (server name, subdomain taken from the Host header, script root, scheme) and is used from here on
+            host_ = ad.server_name if (m.host_matching or not ad.subdomain) else f"{ad.subdomain}.{ad.server_name}"
+            env_ = {"REQUEST_METHOD": "GET", "wsgi.url_scheme": ad.url_scheme, "SERVER_NAME": "srv.internal", "SERVER_PORT": "8000", "HTTP_HOST": host_,
+                    "SCRIPT_NAME": script.rstrip("/"), "PATH_INFO": "/", "QUERY_STRING": ""}
+            twin = m.bind_to_environ(env_, server_name=None if m.host_matching else "h.com")
+            rec.observe("adapters_bound_to_an_environ")
+            a1 = (ad.server_name, ad.subdomain or "", ad.script_name, ad.url_scheme)
+            a2 = (twin.server_name, twin.subdomain or "", twin.script_name, twin.url_scheme)
+            if a1 != a2:
+                rec.violation("C04/environ-bound-adapter-differs", f"bind(...) gives (server, subdomain, script, scheme) = {a1!r}, bind_to_environ(Host {host_!r}, SCRIPT_NAME {script.rstrip('/')!r}) gives {a2!r}",
+                              {"mode": mode, "script": script, "host": host_}, monitor="law1")
+                continue
+            ad = twin
         for i, (rs, convs, kw, defaults) in enumerate(specs):
             for _ in range(cfg["tuples"]):
                 vals = {f"v{j}": CONV[c](rng) for j, c in enumerate(convs)}
